@@ -481,3 +481,51 @@ func genPropCountingWriter(t *rapid.T) CWCase {
 	}
 	return c
 }
+
+
+// ---- dense shape sweeps: one size or count at a time, every value 0..1100 (counts: ..300) ----
+
+type ShapeCase struct {
+	Shape string `json:"shape"`
+	N     int    `json:"n"`
+	Sink  string `json:"sink"`
+}
+
+var shapeProp = vh.Define("C04", "shape-sweep", func(c ShapeCase, r *vh.R) {
+	s, ok := bundlekit.ShapeSpec(c.Shape, c.N)
+	if !ok {
+		r.Skip = true
+		return
+	}
+	r.Class("shape:" + c.Shape)
+	sub := &vh.R{}
+	prop.Check(Case{Spec: *s, Sink: c.Sink}, sub)
+	r.V = sub.V
+	r.NT()
+})
+
+func shapeGrid() (out []ShapeCase) {
+	for _, sh := range []string{"exchanges", "headers", "body-octets", "url-octets", "value-octets"} {
+		top, extra := 1100, []int{2047, 2048, 2049, 4095, 4096, 4097, 10000, 65535, 65536, 65537}
+		if sh == "exchanges" || sh == "headers" {
+			top, extra = 300, []int{500, 1000, 1100, 2000}
+		}
+		for n := 0; n <= top; n++ {
+			out = append(out, ShapeCase{Shape: sh, N: n, Sink: []string{"buffer", "plain", "readerfrom"}[n%3]})
+		}
+		for _, n := range extra {
+			out = append(out, ShapeCase{Shape: sh, N: n, Sink: "plain"})
+		}
+	}
+	return out
+}
+
+func TestShapeSweep(t *testing.T) {
+	g := shapeGrid()
+	for _, c := range g {
+		if !shapeProp.One(t, c) {
+			return
+		}
+	}
+	vh.Exhaustive("shape-sweep", fmt.Sprintf("exchanges per bundle and header fields per response 0..300 (+500, 1000, 1100, 2000), body / URL / header-value octets 0..1100 (+ around 2048, 4096, 65536, 10000), versions alternating, three kinds of destination: %d bundles judged by the strict parser", len(g)))
+}
